@@ -1,28 +1,1070 @@
 //go:build go1.21
 
+// C07 — source formatting is idempotent and meaning preserving (.wa and .wz).
+//
+// Seeds: every .wa/.wz file under waroot (embedded FS + examples/tests on disk) that parses, plus a
+// generated corpus covering every declaration/statement/expression form in both syntaxes.
+// Variants: the seed itself; every single-gap layout perturbation (deviation 1; 2 on the small
+// corpus programs in the thorough tier) where a gap is the text between two consecutive tokens
+// and the alternatives are {nothing, one space, newline, blank line, `//x`+newline, `/*x*/`,
+// `#x`+newline (wa) / `注: x`+newline (wz)}; every permutation of the first <= 3 imports.
+// A variant that does not parse is outside the property's domain and skipped (counted).
+// Oracles on every variant p, f = format(p):
+//
+//	format(f) == f;  f parses;  dump(parse(p)) == dump(parse(f)) without positions;
+//	multiset of comment texts equal;  and on a bounded subset of complete programs:
+//	WAT(p) == WAT(f) with the source positions of the main file neutralised in the FileSet.
 package main
 
 import (
+	"bytes"
+	"crypto/sha1"
+	"encoding/json"
 	"fmt"
+	"io/fs"
 	"os"
+	"path"
+	"path/filepath"
+	"reflect"
+	"regexp"
+	"runtime"
+	"sort"
 	"strings"
+	"sync"
+	"syscall"
+	"time"
 
 	"wa-lang.org/wa/api"
+	"wa-lang.org/wa/internal/ast"
+	"wa-lang.org/wa/internal/backends/compiler_wat"
+	"wa-lang.org/wa/internal/format"
+	"wa-lang.org/wa/internal/parser"
+	"wa-lang.org/wa/internal/scanner"
+	"wa-lang.org/wa/internal/token"
+	"wa-lang.org/wa/internal/zzverif/astdump"
+	"wa-lang.org/wa/internal/zzverif/mc"
+	"wa-lang.org/wa/waroot"
 )
 
-func main() {
-	src := "func main {\n\tx := []int{1,2}\n\tprintln(len(x) == 2)\n\tprintln(x[3])\n\tpanic(\"boom\")\n}\n"
-	_, wat1, _, err := api.BuildFile(api.DefaultConfig(), "x.wa", src)
+// ---------------------------------------------------------------------------------------------
+// Seeds
+
+type span struct{ off, end int }
+
+type seedT struct {
+	Name   string // waroot-relative path or corpus:<name>
+	Syntax string // wa | wz
+	File   string // file name handed to the API
+	Src    []byte
+	Corpus bool
+	Toks   []span // nil: not perturbable (token texts could not be located)
+	IsCmt  []bool // Toks[i] is a comment
+	NImp   int    // number of import specs
+}
+
+func parseSrc(name string, src []byte) (*token.FileSet, *ast.File, error) {
+	fset := token.NewFileSet()
+	f, err := parser.ParseFile(nil, fset, name, src, parser.ParseComments)
+	return fset, f, err
+}
+
+// go2wa renders a Go-spelled program to .wa with the repository's converter.
+func go2wa(goSrc string) (string, error) {
+	fset := token.NewFileSet()
+	f, err := parser.ParseFile(nil, fset, "corpus.wa.go", []byte(goSrc), parser.ParseComments)
 	if err != nil {
-		fmt.Println(err)
-		os.Exit(1)
+		return "", err
 	}
-	for i, l := range strings.Split(string(wat1), "\n") {
-		if strings.Contains(l, "x.wa") || strings.Contains(l, "(data") {
-			if len(l) > 600 {
-				l = l[:300] + " ...... " + l[len(l)-300:]
+	f.Name.Name = ""
+	out, err := format.DevFormat(fset, f, []byte(goSrc))
+	return string(out), err
+}
+
+func scanTokens(s *seedT) {
+	var sc scanner.Scanner
+	fset := token.NewFileSet()
+	file := fset.AddFile(s.File, -1, len(s.Src))
+	sc.W2Mode = s.Syntax == "wz"
+	bad := false
+	sc.Init(file, s.Src, func(token.Position, string) { bad = true }, scanner.ScanComments)
+	var toks []span
+	var cmt []bool
+	for {
+		pos, tok, lit := sc.Scan()
+		if tok == token.EOF {
+			break
+		}
+		if tok == token.SEMICOLON && lit == "\n" {
+			continue
+		}
+		off := file.Offset(pos)
+		text := lit
+		if text == "" {
+			text = tok.String()
+		}
+		if off+len(text) > len(s.Src) || string(s.Src[off:off+len(text)]) != text {
+			return // e.g. carriage returns stripped from a literal: leave the seed unperturbed
+		}
+		if n := len(toks); n > 0 && toks[n-1].end > off {
+			return
+		}
+		toks = append(toks, span{off, off + len(text)})
+		cmt = append(cmt, tok == token.COMMENT)
+	}
+	if bad {
+		return
+	}
+	s.Toks, s.IsCmt = toks, cmt
+}
+
+var (
+	seedsOnce sync.Once
+	seeds     []*seedT
+	seedsErr  []string
+)
+
+func loadSeeds() ([]*seedT, []string) {
+	seedsOnce.Do(func() {
+		add := func(name, syntax, file string, src []byte, corpus bool) {
+			s := &seedT{Name: name, Syntax: syntax, File: file, Src: src, Corpus: corpus}
+			var perr error
+			if p := mc.Recover(func() {
+				_, f, err := parseSrc(file, src)
+				perr = err
+				if err == nil {
+					for _, d := range f.Decls {
+						if g, ok := d.(*ast.GenDecl); ok && (g.Tok == token.IMPORT || g.Tok == token.Zh_引入) {
+							s.NImp += len(g.Specs)
+						}
+					}
+				}
+			}); p != "" {
+				perr = fmt.Errorf("parser panic: %s", p)
 			}
-			fmt.Println(i, l)
+			if perr != nil {
+				if corpus {
+					seedsErr = append(seedsErr, fmt.Sprintf("corpus program %s does not parse: %v", name, perr))
+				}
+				return // a waroot file that does not parse is not a seed
+			}
+			scanTokens(s)
+			seeds = append(seeds, s)
+		}
+		for _, c := range goCorpus {
+			var wa string
+			var err error
+			if p := mc.Recover(func() { wa, err = go2wa(c.Src) }); p != "" || err != nil {
+				seedsErr = append(seedsErr, fmt.Sprintf("corpus program %s: go->wa conversion failed: %v %s", c.Name, err, p))
+				continue
+			}
+			add("corpus:"+c.Name, "wa", c.Name+".wa", []byte(wa), true)
+		}
+		for _, c := range waCorpus {
+			add("corpus:"+c.Name, "wa", c.Name+".wa", []byte(c.Src), true)
+		}
+		for _, c := range wzCorpus {
+			add("corpus:"+c.Name, "wz", c.Name+".wz", []byte(c.Src), true)
+		}
+		files := map[string][]byte{}
+		walk := func(fsys fs.FS) {
+			fs.WalkDir(fsys, ".", func(p string, d fs.DirEntry, err error) error {
+				if err != nil || d.IsDir() {
+					return nil
+				}
+				if strings.HasSuffix(p, ".wa") || strings.HasSuffix(p, ".wz") {
+					if _, ok := files[p]; !ok {
+						if data, err := fs.ReadFile(fsys, p); err == nil {
+							files[p] = data
+						}
+					}
+				}
+				return nil
+			})
+		}
+		walk(waroot.GetRootFS())                              // what the binary ships (src, hello.wa)
+		walk(os.DirFS(filepath.Join(mc.RepoDir(), "waroot"))) // examples, tests: not embedded
+		var names []string
+		for p := range files {
+			names = append(names, p)
+		}
+		sort.Strings(names)
+		for _, p := range names {
+			syn := "wa"
+			if strings.HasSuffix(p, ".wz") {
+				syn = "wz"
+			}
+			add(p, syn, path.Base(p), files[p], false)
+		}
+	})
+	return seeds, seedsErr
+}
+
+// ---------------------------------------------------------------------------------------------
+// Variants
+
+var altsWa = []string{"", " ", "\n", "\n\n", "//x\n", "/*x*/", "#x\n"}
+var altsWz = []string{"", " ", "\n", "\n\n", "//x\n", "/*x*/", "注: x\n"}
+
+func (s *seedT) alts() []string {
+	if s.Syntax == "wz" {
+		return altsWz
+	}
+	return altsWa
+}
+
+func (s *seedT) ngaps() int {
+	if s.Toks == nil {
+		return 0
+	}
+	return len(s.Toks) + 1
+}
+
+func (s *seedT) gapText(g int) (lo, hi int) {
+	lo, hi = 0, len(s.Src)
+	if g > 0 {
+		lo = s.Toks[g-1].end
+	}
+	if g < len(s.Toks) {
+		hi = s.Toks[g].off
+	}
+	return
+}
+
+// withGaps replaces gaps (sorted by index) by the given alternatives; nil if an alternative equals
+// the original gap text (that variant is the seed or a lower-deviation variant).
+func (s *seedT) withGaps(gs []int, as []int) []byte {
+	alts := s.alts()
+	var b []byte
+	prev := 0
+	for k, g := range gs {
+		lo, hi := s.gapText(g)
+		if string(s.Src[lo:hi]) == alts[as[k]] {
+			return nil
+		}
+		b = append(b, s.Src[prev:lo]...)
+		b = append(b, alts[as[k]]...)
+		prev = hi
+	}
+	return append(b, s.Src[prev:]...)
+}
+
+const (
+	kBase = iota
+	kGap1
+	kGap2
+	kImports
+	kWatBase
+	kWatGap1    // gap1 variants, only gaps next to a comment token
+	kWatGap1All // all gap1 variants
+)
+
+func (s *seedT) count(kind int) int {
+	na := len(s.alts())
+	n := s.ngaps()
+	switch kind {
+	case kBase, kWatBase:
+		return 1
+	case kGap1, kWatGap1, kWatGap1All:
+		return n * na
+	case kGap2:
+		return n * (n - 1) / 2 * na * na
+	case kImports:
+		switch {
+		case s.NImp >= 3:
+			return 5
+		case s.NImp == 2:
+			return 1
 		}
 	}
+	return 0
+}
+
+func altName(a string) string {
+	switch a {
+	case "":
+		return "nothing"
+	case " ":
+		return "space"
+	case "\n":
+		return "newline"
+	case "\n\n":
+		return "blank-line"
+	}
+	return "comment(" + commentStyle(a) + ")"
+}
+
+// altClass names what a variant inserts (the trigger), used as the class of "output does not
+// parse" violations.
+func (s *seedT) altClass(kind, i int) string {
+	na := len(s.alts())
+	switch kind {
+	case kGap1, kWatGap1, kWatGap1All:
+		return "inserted:" + altName(s.alts()[i%na])
+	case kGap2:
+		o := i % (na * na)
+		return "inserted:" + altName(s.alts()[o/na]) + "+" + altName(s.alts()[o%na])
+	case kImports:
+		return "imports-permuted"
+	}
+	return "seed"
+}
+
+var perms3 = [][]int{{0, 2, 1}, {1, 0, 2}, {1, 2, 0}, {2, 0, 1}, {2, 1, 0}}
+
+// variant returns the text of variant i of the given kind, nil if it does not exist.
+func (s *seedT) variant(kind, i int) (p []byte, desc string) {
+	na := len(s.alts())
+	switch kind {
+	case kBase, kWatBase:
+		return s.Src, "seed"
+	case kGap1, kWatGap1, kWatGap1All:
+		g, a := i/na, i%na
+		if kind == kWatGap1 {
+			near := g > 0 && s.IsCmt[g-1] || g < len(s.Toks) && s.IsCmt[g]
+			if !near {
+				return nil, ""
+			}
+		}
+		return s.withGaps([]int{g}, []int{a}), fmt.Sprintf("gap %d -> %q", g, s.alts()[a])
+	case kGap2:
+		n := s.ngaps()
+		pair, o := i/(na*na), i%(na*na)
+		g1 := 0
+		for pair >= n-1-g1 {
+			pair -= n - 1 - g1
+			g1++
+		}
+		g2 := g1 + 1 + pair
+		return s.withGaps([]int{g1, g2}, []int{o / na, o % na}), fmt.Sprintf("gaps %d,%d -> %q,%q", g1, g2, s.alts()[o/na], s.alts()[o%na])
+	case kImports:
+		return s.permuteImports(i), fmt.Sprintf("import permutation %d", i)
+	}
+	return nil, ""
+}
+
+// permuteImports reorders the source text of the first (up to) three import specs.
+func (s *seedT) permuteImports(i int) []byte {
+	fset, f, err := parseSrc(s.File, s.Src)
+	if err != nil {
+		return nil
+	}
+	var specs []span
+	for _, d := range f.Decls {
+		g, ok := d.(*ast.GenDecl)
+		if !ok || (g.Tok != token.IMPORT && g.Tok != token.Zh_引入) {
+			continue
+		}
+		for _, sp := range g.Specs {
+			is := sp.(*ast.ImportSpec)
+			lo := fset.Position(is.Path.Pos()).Offset
+			hi := lo + len(is.Path.Value)
+			if is.Name != nil && is.Name.Pos().IsValid() {
+				if e := fset.Position(is.Name.End()).Offset; e > hi {
+					hi = e
+				}
+				if b := fset.Position(is.Name.Pos()).Offset; b < lo {
+					lo = b
+				}
+			}
+			specs = append(specs, span{lo, hi})
+		}
+	}
+	var perm []int
+	switch {
+	case len(specs) >= 3:
+		specs = specs[:3]
+		perm = perms3[i]
+	case len(specs) == 2:
+		perm = []int{1, 0}
+	default:
+		return nil
+	}
+	var b []byte
+	prev := 0
+	for k, sp := range specs {
+		b = append(b, s.Src[prev:sp.off]...)
+		src := specs[perm[k]]
+		b = append(b, s.Src[src.off:src.end]...)
+		prev = sp.end
+	}
+	return append(b, s.Src[prev:]...)
+}
+
+// ---------------------------------------------------------------------------------------------
+// Oracles (worker side)
+
+type Violation struct {
+	Key, What string
+	Seed      string
+	Variant   string
+	Input     string
+	Detail    string
+	SeedIdx   int
+	Kind      int
+	Index     int
+}
+
+var (
+	reNum    = regexp.MustCompile(`[0-9]+`)
+	rePosPfx = regexp.MustCompile(`^[^\s:]*:[0-9]+:[0-9]+: `)
+	reQuoted = regexp.MustCompile("\"[^\"]*\"|'[^']*'|`[^`]*`")
+)
+
+func normMsg(s string) string {
+	if i := strings.IndexByte(s, '\n'); i >= 0 {
+		s = s[:i]
+	}
+	s = rePosPfx.ReplaceAllString(s, "")
+	s = reQuoted.ReplaceAllString(s, "Q")
+	s = reNum.ReplaceAllString(s, "N")
+	if len(s) > 90 {
+		s = s[:90]
+	}
+	return s
+}
+
+func panicLoc() string {
+	pcs := make([]uintptr, 128)
+	n := runtime.Callers(3, pcs)
+	frames := runtime.CallersFrames(pcs[:n])
+	var list []runtime.Frame
+	for {
+		f, more := frames.Next()
+		list = append(list, f)
+		if !more {
+			break
+		}
+	}
+	start := 0
+	for i, f := range list {
+		if f.Function == "runtime.gopanic" {
+			start = i + 1
+		}
+	}
+	for _, f := range list[start:] {
+		if strings.HasPrefix(f.Function, "wa-lang.org/wa/") && !strings.Contains(f.Function, "/zzverif/") {
+			fn := f.Function[strings.LastIndexByte(f.Function, '/')+1:]
+			return filepath.Base(f.File) + ":" + fn
+		}
+	}
+	return "?"
+}
+
+func safeFormat(name string, src []byte) (out string, err error, pnc string) {
+	defer func() {
+		if e := recover(); e != nil {
+			pnc = normMsg(fmt.Sprint(e)) + " at " + panicLoc()
+		}
+	}()
+	out, err = api.FormatCode(name, string(src))
+	return
+}
+
+// sortedImports returns f with the specs of every import declaration sorted by path and name (the
+// formatter sorts imports by design: format.SourceFile -> ast.SortImports).
+func sortedImports(f *ast.File) *ast.File {
+	g := *f
+	g.Decls = append([]ast.Decl(nil), f.Decls...)
+	for i, d := range g.Decls {
+		gd, ok := d.(*ast.GenDecl)
+		if !ok || (gd.Tok != token.IMPORT && gd.Tok != token.Zh_引入) || len(gd.Specs) < 2 {
+			continue
+		}
+		c := *gd
+		c.Specs = append([]ast.Spec(nil), gd.Specs...)
+		key := func(s ast.Spec) string {
+			is, ok := s.(*ast.ImportSpec)
+			if !ok || is.Path == nil {
+				return ""
+			}
+			k := is.Path.Value
+			if is.Name != nil {
+				k += " " + is.Name.Name
+			}
+			return k
+		}
+		sort.SliceStable(c.Specs, func(a, b int) bool { return key(c.Specs[a]) < key(c.Specs[b]) })
+		g.Decls[i] = &c
+	}
+	return &g
+}
+
+func commentStyle(t string) string {
+	switch {
+	case strings.HasPrefix(t, "//"):
+		return "//"
+	case strings.HasPrefix(t, "/*"):
+		return "/*"
+	case strings.HasPrefix(t, "#"):
+		return "#"
+	case strings.HasPrefix(t, "注"):
+		return "注:"
+	}
+	return "?"
+}
+
+func tail1(p string) string {
+	if i := strings.LastIndexByte(p, '/'); i >= 0 {
+		return p[i+1:]
+	}
+	return p
+}
+
+func tail2(p string) string {
+	parts := strings.Split(p, "/")
+	if len(parts) > 2 {
+		parts = parts[len(parts)-2:]
+	}
+	return strings.Join(parts, "/")
+}
+
+// constructAt names the innermost AST nodes of f covering byte offset off.
+func constructAt(fset *token.FileSet, f *ast.File, off int) (res string) {
+	defer func() {
+		if recover() != nil {
+			res = "File"
+		}
+	}()
+	var chain []string
+	inCmt := ""
+	for _, g := range f.Comments {
+		for _, c := range g.List {
+			lo := fset.Position(c.Pos()).Offset
+			if lo <= off && off <= lo+len(c.Text) {
+				inCmt = "+comment(" + commentStyle(c.Text) + ")"
+			}
+		}
+	}
+	ast.Inspect(f, func(n ast.Node) bool {
+		if n == nil {
+			return false
+		}
+		if _, ok := n.(*ast.CommentGroup); ok {
+			return false
+		}
+		if _, ok := n.(*ast.Comment); ok {
+			return false
+		}
+		ok := false
+		func() {
+			defer func() { recover() }()
+			if n.Pos().IsValid() && n.End().IsValid() {
+				lo, hi := fset.Position(n.Pos()).Offset, fset.Position(n.End()).Offset
+				ok = lo <= off && off <= hi
+			}
+		}()
+		if _, isFile := n.(*ast.File); isFile {
+			ok = true
+		}
+		if ok {
+			chain = append(chain, reflect.TypeOf(n).Elem().Name())
+		}
+		return ok
+	})
+	if inCmt != "" {
+		// the difference is at a comment: the comment style is the construct (which node happens
+		// to enclose a misplaced comment is incidental)
+		return inCmt[1:]
+	}
+	if len(chain) == 0 {
+		return "File"
+	}
+	return chain[len(chain)-1]
+}
+
+type oracleStats struct {
+	Variants, Invalid, Evals, WatPairs, WatSkipped int
+}
+
+type watCache struct {
+	m map[[20]byte]string // text hash -> wat hash or "!err"
+}
+
+var wcache = watCache{m: map[[20]byte]string{}}
+
+// compileNorm = api.BuildFile (LoadProgramFile + compiler_wat.Compile) with the positions of the
+// main file made to print as "<file>:1" (one line, unknown column) before code generation, so
+// that position strings embedded in panic/assert calls do not depend on the layout.
+func compileNorm(name string, src []byte, normalise bool) (wat string, errClass string) {
+	defer func() {
+		if e := recover(); e != nil {
+			wat, errClass = "", "panic: "+normMsg(fmt.Sprint(e))+" at "+panicLoc()
+		}
+	}()
+	prog, err := api.LoadProgramFile(api.DefaultConfig(), name, src)
+	if err != nil || prog == nil {
+		return "", "load: " + normMsg(fmt.Sprint(err))
+	}
+	if normalise {
+		prog.Fset.Iterate(func(f *token.File) bool {
+			if f.Name() == name && f.Size() > 0 {
+				f.SetLines([]int{0})
+				f.AddLineColumnInfo(0, name, 1, 0)
+			}
+			return true
+		})
+	}
+	out, err := compiler_wat.New().Compile(prog)
+	if err != nil {
+		return "", "compile: " + normMsg(err.Error())
+	}
+	return out, ""
+}
+
+func cachedWat(name string, src []byte) (hash string, wat string) {
+	k := sha1.Sum(append([]byte(name+"\x00"), src...))
+	if h, ok := wcache.m[k]; ok {
+		return h, ""
+	}
+	w, e := compileNorm(name, src, true)
+	h := "!" + e
+	if e == "" {
+		s := sha1.Sum([]byte(w))
+		h = fmt.Sprintf("%x", s[:8])
+	}
+	if len(wcache.m) > 4096 {
+		wcache.m = map[[20]byte]string{}
+	}
+	wcache.m[k] = h
+	return h, w
+}
+
+func watWhere(a, b string) string {
+	la, lb := strings.Split(a, "\n"), strings.Split(b, "\n")
+	cur := "module"
+	for i := 0; i < len(la) && i < len(lb); i++ {
+		t := strings.TrimSpace(la[i])
+		if strings.HasPrefix(t, "(func ") || strings.HasPrefix(t, "(data") || strings.HasPrefix(t, "(global") || strings.HasPrefix(t, "(export") || strings.HasPrefix(t, "(table") || strings.HasPrefix(t, "(elem") || strings.HasPrefix(t, "(import") {
+			f := strings.Fields(t)
+			cur = strings.TrimLeft(f[0], "(")
+			if cur == "func" && len(f) > 1 {
+				cur = "func " + reNum.ReplaceAllString(strings.TrimRight(f[1], ")"), "N")
+			}
+		}
+		if la[i] != lb[i] {
+			return cur + ": " + truncate(strings.TrimSpace(la[i]), 60) + " <> " + truncate(strings.TrimSpace(lb[i]), 60)
+		}
+	}
+	return cur + ": length"
+}
+
+func truncate(s string, n int) string {
+	if len(s) > n {
+		return s[:n] + "..."
+	}
+	return s
+}
+
+// check runs the oracles on one variant; returns violations.
+func check(s *seedT, p []byte, desc, altClass string, wat bool, st *oracleStats) (vs []Violation) {
+	add := func(key, what, detail string) {
+		vs = append(vs, Violation{Key: key, What: what, Seed: s.Name, Variant: desc, Input: truncate(string(p), 1500), Detail: truncate(detail, 1500)})
+	}
+	syn := s.Syntax
+	fset0, f0, err := parseSrc(s.File, p)
+	if err != nil {
+		st.Invalid++
+		return nil
+	}
+	st.Variants++
+	st.Evals++
+	f1, ferr, pnc := safeFormat(s.File, p)
+	if pnc != "" {
+		add("format-panic|"+syn+"|"+pnc, "format panics on a valid source: "+pnc, "")
+		return
+	}
+	if ferr != nil {
+		add("format-error|"+syn+"|"+normMsg(ferr.Error()), "format rejects a source the parser accepts: "+ferr.Error(), "")
+		return
+	}
+	fset1, a1, perr := parseSrc(s.File, []byte(f1))
+	if perr != nil {
+		add("reparse|"+syn+"|"+altClass, "format(s) does not parse: "+perr.Error(), f1)
+		return
+	}
+	// 1. idempotence
+	st.Evals++
+	f2, ferr2, pnc2 := safeFormat(s.File, []byte(f1))
+	switch {
+	case pnc2 != "":
+		add("format-panic|"+syn+"|"+pnc2, "format panics on its own output: "+pnc2, f1)
+	case ferr2 != nil:
+		add("reformat-error|"+syn+"|"+normMsg(ferr2.Error()), "format rejects its own (parsable) output: "+ferr2.Error(), f1)
+	case f2 != f1:
+		d := 0
+		for d < len(f1) && d < len(f2) && f1[d] == f2[d] {
+			d++
+		}
+		where := constructAt(fset1, a1, d)
+		lo := max(0, d-40)
+		add("idempotent|"+syn+"|"+where, fmt.Sprintf("format(format(s)) != format(s); first difference at byte %d in %s", d, where),
+			fmt.Sprintf("format(s) around the difference: %q\nformat(format(s)):              %q", f1[lo:min(len(f1), d+40)], f2[lo:min(len(f2), d+40)]))
+	}
+	// 2. same tree
+	_ = fset0
+	d0, d1 := astdump.Dump(sortedImports(f0)), astdump.Dump(sortedImports(a1))
+	if i, pth := astdump.FirstDiff(d0, d1); i >= 0 {
+		get := func(d []astdump.Line, i int) string {
+			if i < len(d) {
+				return strings.TrimSpace(d[i].Text)
+			}
+			return "<end>"
+		}
+		add("ast|"+syn+"|"+tail1(pth), fmt.Sprintf("parse(format(s)) differs from parse(s) at %s: %s  vs  %s", pth, get(d0, i), get(d1, i)), f1)
+	}
+	// 3. comments
+	c0, c1 := astdump.Comments(f0), astdump.Comments(a1)
+	if !reflect.DeepEqual(c0, c1) {
+		cnt := map[string]int{}
+		for _, c := range c0 {
+			cnt[c]++
+		}
+		for _, c := range c1 {
+			cnt[c]--
+		}
+		var keys []string
+		for c := range cnt {
+			keys = append(keys, c)
+		}
+		sort.Strings(keys)
+		for _, c := range keys {
+			if cnt[c] > 0 {
+				add("comments|"+syn+"|lost:"+commentStyle(c), fmt.Sprintf("comment %q is lost by formatting", c), f1)
+				break
+			}
+		}
+		for _, c := range keys {
+			if cnt[c] < 0 {
+				add("comments|"+syn+"|added:"+commentStyle(c), fmt.Sprintf("comment %q appears after formatting", c), f1)
+				break
+			}
+		}
+	}
+	// 4. same WebAssembly
+	if wat {
+		h0, w0 := cachedWat(s.File, p)
+		if strings.HasPrefix(h0, "!") {
+			st.WatSkipped++ // not a complete program (or the compiler rejects it): outside this oracle
+			return
+		}
+		st.Evals += 2
+		st.WatPairs++
+		h1, w1 := cachedWat(s.File, []byte(f1))
+		switch {
+		case strings.HasPrefix(h1, "!"):
+			add("wat-compile|"+syn+"|"+h1[1:], "the program compiles but its formatted version does not: "+h1[1:], f1)
+		case h0 != h1:
+			if w0 == "" {
+				w0, _ = compileNorm(s.File, p, true)
+			}
+			if w1 == "" {
+				w1, _ = compileNorm(s.File, []byte(f1), true)
+			}
+			where := watWhere(w0, w1)
+			add("wat|"+syn+"|"+strings.SplitN(where, ":", 2)[0], "program and formatted program compile to different WAT: "+where, f1)
+		}
+	}
+	return
+}
+
+// ---------------------------------------------------------------------------------------------
+// Jobs
+
+type Job struct {
+	Seed     int
+	Kind     int
+	From, To int
+	OrigOnly bool // crash triage: only compile the variant itself
+}
+
+type JobResult struct {
+	Stats    oracleStats
+	Viol     []Violation
+	Outcomes []string
+	Err      string
+}
+
+func handleJob(raw json.RawMessage) interface{} {
+	var j Job
+	if err := json.Unmarshal(raw, &j); err != nil {
+		return JobResult{Err: err.Error()}
+	}
+	ss, _ := loadSeeds()
+	if j.Seed >= len(ss) {
+		return JobResult{Err: "seed index out of range"}
+	}
+	s := ss[j.Seed]
+	var res JobResult
+	seen := map[string]bool{}
+	outcomes := map[string]bool{}
+	for i := j.From; i < j.To; i++ {
+		p, desc := s.variant(j.Kind, i)
+		if p == nil {
+			continue
+		}
+		if j.OrigOnly {
+			cachedWat(s.File, p)
+			continue
+		}
+		wat := j.Kind == kWatBase || j.Kind == kWatGap1 || j.Kind == kWatGap1All
+		vs := check(s, p, desc, s.altClass(j.Kind, i), wat, &res.Stats)
+		for _, v := range vs {
+			if !seen[v.Key] {
+				seen[v.Key] = true
+				v.SeedIdx, v.Kind, v.Index = j.Seed, j.Kind, i
+				res.Viol = append(res.Viol, v)
+			}
+		}
+		if len(outcomes) < 64 {
+			h := sha1.Sum(p)
+			o := fmt.Sprintf("%s|%d|%x", s.Syntax, len(vs), h[:2])
+			outcomes[o] = true
+		}
+	}
+	for o := range outcomes {
+		res.Outcomes = append(res.Outcomes, o)
+	}
+	sort.Strings(res.Outcomes)
+	return res
+}
+
+// ---------------------------------------------------------------------------------------------
+// Supervisor
+
+type found struct {
+	v    Violation
+	size int
+}
+
+func main() {
+	if mc.IsWorker() {
+		mc.WorkerMain(handleJob)
+		return
+	}
+	r := mc.Start("C07")
+	ss, errs := loadSeeds()
+	for _, e := range errs {
+		r.HarnessError("%s", e)
+	}
+	if os.Getenv("C07_DUMP") != "" {
+		for _, s := range ss {
+			if s.Corpus {
+				_, e := compileNorm(s.File, s.Src, true)
+				fmt.Printf("== %s (%d tokens) compile: %q\n%s\n", s.Name, len(s.Toks), e, s.Src)
+			}
+		}
+	}
+	thorough := r.Thorough()
+	gap1Tokens := mc.Pick(r, 150, 600)
+	gap2Tokens := 45
+
+	r.Rule("every seed; every single-gap perturbation (7 alternatives per gap) of every seed with <= T tokens; thorough: every pair of gap perturbations of the corpus programs with <= 45 tokens; " +
+		"every permutation of the first <= 3 imports; the WAT oracle on every seed that compiles, on the comment-adjacent gap perturbations of the corpus programs, and (thorough) on all gap perturbations of corpus programs <= 120 tokens. " +
+		"Outcomes are (syntax, number of violated oracles, variant hash)")
+	r.Bound("gap1_max_tokens", gap1Tokens)
+	r.Bound("gap2_max_tokens", mc.Pick(r, 0, gap2Tokens))
+	r.Bound("gap_alternatives", len(altsWa))
+	r.Bound("import_permutations_of", 3)
+	r.Assume("a variant is in the domain iff parser.ParseFile (ParseComments) accepts it without error")
+	r.Assume("import declarations are compared as multisets of (path, name): the formatter sorts them by design (format.SourceFile -> ast.SortImports)")
+	r.Assume("syntax tree equality ignores token.Pos fields, resolution data (Obj/Scope/Unresolved) and which node a comment group is attached to; comment texts are compared as a multiset")
+	r.Assume("WAT equality: positions of the main file are made to print as '<file>:1' in the FileSet between api.LoadProgramFile and compiler_wat.Compile (the two steps of api.BuildFile); nothing else is normalised")
+
+	var jobs []Job
+	nseedWa, nseedWz, ncorpus := 0, 0, 0
+	addJobs := func(si, kind, chunk int) {
+		n := ss[si].count(kind)
+		for from := 0; from < n; from += chunk {
+			jobs = append(jobs, Job{Seed: si, Kind: kind, From: from, To: min(from+chunk, n)})
+		}
+	}
+	for si, s := range ss {
+		if s.Syntax == "wa" {
+			nseedWa++
+		} else {
+			nseedWz++
+		}
+		if s.Corpus {
+			ncorpus++
+		}
+		nt := len(s.Toks)
+		addJobs(si, kBase, 1)
+		addJobs(si, kImports, 8)
+		if s.Toks != nil && nt <= gap1Tokens {
+			addJobs(si, kGap1, 700)
+		}
+		if thorough && s.Corpus && s.Toks != nil && nt <= gap2Tokens {
+			addJobs(si, kGap2, 3000)
+		}
+		hasMain := bytes.Contains(s.Src, []byte("func main")) || bytes.Contains(s.Src, []byte("主控"))
+		if hasMain {
+			addJobs(si, kWatBase, 1)
+		}
+		if s.Corpus && s.Toks != nil {
+			if thorough && nt <= 120 {
+				addJobs(si, kWatGap1All, 40)
+			} else {
+				addJobs(si, kWatGap1, 140)
+			}
+		}
+	}
+	r.Bound("seeds_wa", nseedWa)
+	r.Bound("seeds_wz", nseedWz)
+	r.Bound("corpus_programs", ncorpus)
+	if nseedWa < 100 || nseedWz < 20 {
+		r.HarnessError("too few seeds: %d wa, %d wz", nseedWa, nseedWz)
+	}
+	// cheapest first is not needed for correctness; interleave heavy WAT jobs early so they overlap
+	sort.SliceStable(jobs, func(a, b int) bool {
+		wa := jobs[a].Kind >= kWatBase
+		wb := jobs[b].Kind >= kWatBase
+		return wa && !wb
+	})
+
+	var mu sync.Mutex
+	best := map[string]found{}
+	var total oracleStats
+	pool := mc.NewPool(mc.NWorkers(), []string{"GOMAXPROCS=2", "GOGC=200"})
+	record := func(v Violation) {
+		mu.Lock()
+		defer mu.Unlock()
+		sz := len(v.Input)
+		if old, ok := best[v.Key]; !ok || sz < old.size || sz == old.size && v.Input < old.v.Input {
+			best[v.Key] = found{v, sz}
+		}
+	}
+	ncrash := 0
+	for round := 0; len(jobs) > 0; round++ {
+		batch := jobs
+		var next []Job
+		pool.Run(len(batch), func(i int) interface{} { return batch[i] }, 10*time.Minute, func(res mc.Result) {
+			j := batch[res.Index]
+			if res.Status == "ok" {
+				var jr JobResult
+				if err := json.Unmarshal(res.Out, &jr); err != nil || jr.Err != "" {
+					r.HarnessError("job result: %v %s", err, jr.Err)
+					return
+				}
+				if j.OrigOnly {
+					// the variant alone compiles without killing the worker: the formatted one does
+					s := ss[j.Seed]
+					p, desc := s.variant(j.Kind, j.From)
+					record(Violation{Key: "wat-compile|" + s.Syntax + "|crash", What: "the program compiles but compiling its formatted version kills the process", Seed: s.Name, Variant: desc, Input: truncate(string(p), 1500), SeedIdx: j.Seed, Kind: j.Kind, Index: j.From})
+					return
+				}
+				mu.Lock()
+				total.Variants += jr.Stats.Variants
+				total.Invalid += jr.Stats.Invalid
+				total.Evals += jr.Stats.Evals
+				total.WatPairs += jr.Stats.WatPairs
+				total.WatSkipped += jr.Stats.WatSkipped
+				mu.Unlock()
+				r.Evals.Add(int64(jr.Stats.Evals))
+				for _, o := range jr.Outcomes {
+					r.Distinct(o)
+				}
+				for _, v := range jr.Viol {
+					record(v)
+				}
+				return
+			}
+			// crash or hang: bisect down to one variant
+			mu.Lock()
+			defer mu.Unlock()
+			ncrash++
+			if j.OrigOnly {
+				return // the variant itself cannot be compiled: outside the WAT oracle
+			}
+			if j.To-j.From > 1 {
+				m := (j.From + j.To) / 2
+				next = append(next, Job{Seed: j.Seed, Kind: j.Kind, From: j.From, To: m}, Job{Seed: j.Seed, Kind: j.Kind, From: m, To: j.To})
+				return
+			}
+			s := ss[j.Seed]
+			p, desc := s.variant(j.Kind, j.From)
+			if j.Kind >= kWatBase {
+				next = append(next, Job{Seed: j.Seed, Kind: j.Kind, From: j.From, To: j.To, OrigOnly: true})
+				return
+			}
+			what := "os.Exit / fatal error"
+			if res.Status == "hang" {
+				what = "no result within 10 minutes"
+			}
+			mu.Unlock()
+			record(Violation{Key: "format-" + res.Status + "|" + s.Syntax, What: "formatting a valid source: " + what, Seed: s.Name, Variant: desc, Input: truncate(string(p), 1500), Detail: truncate(res.Stderr, 1200), SeedIdx: j.Seed, Kind: j.Kind, Index: j.From})
+			mu.Lock()
+		})
+		jobs = next
+		if r.Expired() {
+			r.Cap("deadline")
+			break
+		}
+	}
+	pool.Close()
+	var ru syscall.Rusage
+	if syscall.Getrusage(syscall.RUSAGE_CHILDREN, &ru) == nil {
+		r.Extra("worker_cpu_s", int(ru.Utime.Sec+ru.Stime.Sec))
+	}
+
+	// confirm each smallest witness 5x alone in fresh workers
+	var keys []string
+	for k := range best {
+		keys = append(keys, k)
+	}
+	sort.Strings(keys)
+	okCount := map[string]int{}
+	mc.RunPool(mc.NWorkers(), len(keys)*5, func(i int) interface{} {
+		v := best[keys[i/5]].v
+		return Job{Seed: v.SeedIdx, Kind: v.Kind, From: v.Index, To: v.Index + 1}
+	}, 10*time.Minute, []string{"GOMAXPROCS=2"}, func(res mc.Result) {
+		k := keys[res.Index/5]
+		good := false
+		if strings.HasPrefix(k, "format-crash|") || strings.HasPrefix(k, "format-hang|") || strings.HasSuffix(k, "|crash") {
+			good = res.Status != "ok"
+		} else if res.Status == "ok" {
+			var jr JobResult
+			if json.Unmarshal(res.Out, &jr) == nil {
+				for _, v := range jr.Viol {
+					if v.Key == k {
+						good = true
+					}
+				}
+			}
+		}
+		if good {
+			mu.Lock()
+			okCount[k]++
+			mu.Unlock()
+		}
+	})
+	for _, k := range keys {
+		if okCount[k] != 5 {
+			r.HarnessError("violation %q reproduced only %d/5 times alone", k, okCount[k])
+			delete(best, k)
+		}
+	}
+	for _, k := range keys {
+		if _, ok := best[k]; !ok {
+			continue
+		}
+		v := best[k].v
+		r.Report(k, fmt.Sprintf("%s [%s, %s]", v.What, v.Seed, v.Variant), map[string]interface{}{
+			"seed": v.Seed, "variant": v.Variant, "input": v.Input, "detail": v.Detail,
+		})
+	}
+	r.Extra("variants_checked", total.Variants)
+	r.Extra("variants_not_parsing_skipped", total.Invalid)
+	r.Extra("wat_pairs_compared", total.WatPairs)
+	r.Extra("wat_variants_not_compiling_skipped", total.WatSkipped)
+	r.Extra("worker_deaths_bisected", ncrash)
+	for _, s := range ss {
+		if s.Corpus && r.WantSample() {
+			p, d := s.variant(kGap1, 12)
+			r.Sample(map[string]interface{}{"seed": s.Name, "variant": d, "text": truncate(string(p), 200)})
+		}
+	}
+	if total.Variants < 1000 || total.WatPairs < 20 {
+		r.HarnessError("vacuous: %d variants, %d WAT pairs", total.Variants, total.WatPairs)
+	}
+	r.Finish()
 }
